@@ -10,6 +10,19 @@ pub mod serde_json {
     pub enum Value { Null, Other(ValueOpaque) }
     #[verifier::external_body]
     pub struct ValueOpaque { v: u8 }
+    /// structural equality of JSON values (ASSUMED to coincide with spec equality)
+    impl ::std::cmp::PartialEq for Value {
+        #[verifier::external_body]
+        fn eq(&self, other: &Self) -> (r: bool) { unimplemented!() }
+    }
+    impl vstd::std_specs::cmp::PartialEqSpecImpl for Value {
+        open spec fn obeys_eq_spec() -> bool { true }
+        open spec fn eq_spec(&self, other: &Self) -> bool { *self == *other }
+    }
+    impl Value {
+        #[verifier::external_body]
+        pub fn is_null(&self) -> (r: bool) ensures r == (*self is Null) { unimplemented!() }
+    }
     /// what `serde_json::to_string(&x)` produces for x: the JSON text
     pub trait JsonSer { spec fn json(&self) -> Seq<char>; }
     /// what `serde_json::from_str::<Self>(text)` produces
